@@ -14,6 +14,9 @@ from mc import base
 
 PROPERTY = "C08"
 LEVEL = "model_checking"
+# MyGrad's lock tables are keyed by id(array): a stale entry of a dead array can collide with a new array at the same
+# address, so a handful of raw observations depend on the allocator's history and do not replay (DESIGN section 0)
+NONREPRODUCIBLE_OK = True
 
 BOUNDS = {"quick": [("empty", 4), ("family", 3), ("spent", 3), ("views", 4), ("roview", 3)], "thorough": [("empty", 5), ("family", 4), ("spent", 4), ("written", 4), ("views", 5), ("roview", 4)]}
 MAX_SLOTS = 6
@@ -126,10 +129,26 @@ class World:
         return ops
 
     def note_births(self, exempt=False):
-        known = {id(r()) for r, _, _ in self.births if r() is not None}
-        for op, _ in self.walk():
+        known = {id(b[0]()) for b in self.births if b[0]() is not None}
+        for op, out in self.walk():
             if id(op) not in known:
-                self.births.append((weakref.ref(op), self.time, exempt))
+                # the arrays the op referred to when it was recorded (a later in-place update can swap the data of
+                # a public input tensor under the op without the op being rerouted)
+                arrs = []
+                for var in op.variables:
+                    arrs.append(var.data)
+                    if var.data.base is not None:
+                        arrs.append(var.data.base)
+                arrs.append(out.data)
+                if out.data.base is not None:
+                    arrs.append(out.data.base)
+                refs = []
+                for a in arrs:
+                    try:
+                        refs.append(weakref.ref(a))
+                    except TypeError:
+                        pass
+                self.births.append((weakref.ref(op), self.time, exempt, refs))
 
     def mark_cleared(self, t):
         stack = [t]
@@ -161,10 +180,12 @@ class World:
         """the C08 rule on the current state; returns None or (kind, where, detail)"""
         ops = self.walk()
         birth = {}
-        for r, t, ex in self.births:
+        birth_arrays = {}
+        for r, t, ex, refs in self.births:
             o = r()
             if o is not None:
                 birth[id(o)] = (t, ex)
+                birth_arrays[id(o)] = refs
             del o
         cleared = []
         for r, t in self.cleared:
@@ -190,6 +211,11 @@ class World:
                 arrs.append(out.data.base)
             for a in arrs:
                 referenced_fams.add(id(ub(a)))
+            for r in birth_arrays.get(id(op), ()):
+                a = r()
+                if a is not None:
+                    referenced_fams.add(id(ub(a)))
+                del a
             up = self.upstream_ids(op)
             intact = not any(i in up and t >= t_birth for i, t in cleared)
             if intact:
